@@ -57,15 +57,30 @@ impl TryFrom<WireSyncStatus> for SyncStatus {
         for folder in value.folders {
             folders.insert(
                 decode_uuid(&folder.folder_id)?,
-                folder.state.unwrap().try_into()?,
+                folder
+                    .state
+                    .ok_or_else(crate::bindings::missing_field)?
+                    .try_into()?,
             );
         }
 
         Ok(Self {
-            root: value.root.unwrap().try_into()?,
-            identity: value.identity.unwrap().try_into()?,
-            account: value.account.unwrap().try_into()?,
-            device: value.device.unwrap().try_into()?,
+            root: value
+                .root
+                .ok_or_else(crate::bindings::missing_field)?
+                .try_into()?,
+            identity: value
+                .identity
+                .ok_or_else(crate::bindings::missing_field)?
+                .try_into()?,
+            account: value
+                .account
+                .ok_or_else(crate::bindings::missing_field)?
+                .try_into()?,
+            device: value
+                .device
+                .ok_or_else(crate::bindings::missing_field)?
+                .try_into()?,
             #[cfg(feature = "files")]
             files,
             folders,
@@ -104,7 +119,7 @@ impl TryFrom<WireComparison> for Comparison {
     type Error = Error;
 
     fn try_from(value: WireComparison) -> Result<Self> {
-        let inner = value.inner.unwrap();
+        let inner = value.inner.ok_or_else(crate::bindings::missing_field)?;
         Ok(match inner {
             wire_comparison::Inner::Equal(_) => Self::Equal,
             wire_comparison::Inner::Contains(value) => Self::Contains(
@@ -173,8 +188,14 @@ impl<T> TryFrom<WireDiff> for Diff<T> {
         };
         Ok(Self {
             last_commit,
-            patch: value.patch.unwrap().try_into()?,
-            checkpoint: value.checkpoint.unwrap().try_into()?,
+            patch: value
+                .patch
+                .ok_or_else(crate::bindings::missing_field)?
+                .try_into()?,
+            checkpoint: value
+                .checkpoint
+                .ok_or_else(crate::bindings::missing_field)?
+                .try_into()?,
         })
     }
 }
@@ -200,12 +221,15 @@ where
     type Error = Error;
 
     fn try_from(value: WireMaybeDiff) -> Result<Self> {
-        let inner = value.inner.unwrap();
+        let inner = value.inner.ok_or_else(crate::bindings::missing_field)?;
 
         match inner {
-            wire_maybe_diff::Inner::Diff(value) => {
-                Ok(Self::Diff(value.diff.unwrap().try_into()?))
-            }
+            wire_maybe_diff::Inner::Diff(value) => Ok(Self::Diff(
+                value
+                    .diff
+                    .ok_or_else(crate::bindings::missing_field)?
+                    .try_into()?,
+            )),
             wire_maybe_diff::Inner::Compare(value) => {
                 let compare = if let Some(compare) = value.compare {
                     Some(compare.try_into()?)
@@ -254,15 +278,30 @@ impl TryFrom<WireCreateSet> for CreateSet {
         for folder in value.folders {
             folders.insert(
                 decode_uuid(&folder.folder_id)?,
-                folder.patch.unwrap().try_into()?,
+                folder
+                    .patch
+                    .ok_or_else(crate::bindings::missing_field)?
+                    .try_into()?,
             );
         }
         Ok(Self {
-            identity: value.identity.unwrap().try_into()?,
-            account: value.account.unwrap().try_into()?,
-            device: value.device.unwrap().try_into()?,
+            identity: value
+                .identity
+                .ok_or_else(crate::bindings::missing_field)?
+                .try_into()?,
+            account: value
+                .account
+                .ok_or_else(crate::bindings::missing_field)?
+                .try_into()?,
+            device: value
+                .device
+                .ok_or_else(crate::bindings::missing_field)?
+                .try_into()?,
             #[cfg(feature = "files")]
-            files: value.files.unwrap().try_into()?,
+            files: value
+                .files
+                .ok_or_else(crate::bindings::missing_field)?
+                .try_into()?,
             folders,
         })
     }
@@ -327,7 +366,10 @@ impl TryFrom<WireUpdateSet> for UpdateSet {
         for folder in value.folders {
             folders.insert(
                 decode_uuid(&folder.folder_id)?,
-                folder.diff.unwrap().try_into()?,
+                folder
+                    .diff
+                    .ok_or_else(crate::bindings::missing_field)?
+                    .try_into()?,
             );
         }
         Ok(Self {
@@ -400,7 +442,10 @@ impl TryFrom<WireSyncDiff> for SyncDiff {
         for folder in value.folders {
             folders.insert(
                 decode_uuid(&folder.folder_id)?,
-                folder.maybe_diff.unwrap().try_into()?,
+                folder
+                    .maybe_diff
+                    .ok_or_else(crate::bindings::missing_field)?
+                    .try_into()?,
             );
         }
         Ok(Self {
@@ -473,7 +518,10 @@ impl TryFrom<WireSyncCompare> for SyncCompare {
         for folder in value.folders {
             folders.insert(
                 decode_uuid(&folder.folder_id)?,
-                folder.compare.unwrap().try_into()?,
+                folder
+                    .compare
+                    .ok_or_else(crate::bindings::missing_field)?
+                    .try_into()?,
             );
         }
         Ok(Self {
@@ -524,8 +572,14 @@ impl TryFrom<WireSyncPacket> for SyncPacket {
         };
 
         Ok(Self {
-            status: value.status.unwrap().try_into()?,
-            diff: value.diff.unwrap().try_into()?,
+            status: value
+                .status
+                .ok_or_else(crate::bindings::missing_field)?
+                .try_into()?,
+            diff: value
+                .diff
+                .ok_or_else(crate::bindings::missing_field)?
+                .try_into()?,
             compare,
         })
     }
@@ -551,7 +605,10 @@ impl TryFrom<WireMergeOutcome> for MergeOutcome {
     fn try_from(value: WireMergeOutcome) -> Result<Self> {
         Ok(Self {
             changes: value.changes,
-            tracked: value.tracked.unwrap().try_into()?,
+            tracked: value
+                .tracked
+                .ok_or_else(crate::bindings::missing_field)?
+                .try_into()?,
             #[cfg(feature = "files")]
             external_files: IndexSet::new(),
         })
@@ -649,23 +706,25 @@ impl TryFrom<WireTrackedAccountChange> for TrackedAccountChange {
     type Error = Error;
 
     fn try_from(value: WireTrackedAccountChange) -> Result<Self> {
-        Ok(match value.inner.unwrap() {
-            wire_tracked_account_change::Inner::FolderCreated(inner) => {
-                TrackedAccountChange::FolderCreated(decode_uuid(
-                    &inner.folder_id,
-                )?)
-            }
-            wire_tracked_account_change::Inner::FolderUpdated(inner) => {
-                TrackedAccountChange::FolderUpdated(decode_uuid(
-                    &inner.folder_id,
-                )?)
-            }
-            wire_tracked_account_change::Inner::FolderDeleted(inner) => {
-                TrackedAccountChange::FolderDeleted(decode_uuid(
-                    &inner.folder_id,
-                )?)
-            }
-        })
+        Ok(
+            match value.inner.ok_or_else(crate::bindings::missing_field)? {
+                wire_tracked_account_change::Inner::FolderCreated(inner) => {
+                    TrackedAccountChange::FolderCreated(decode_uuid(
+                        &inner.folder_id,
+                    )?)
+                }
+                wire_tracked_account_change::Inner::FolderUpdated(inner) => {
+                    TrackedAccountChange::FolderUpdated(decode_uuid(
+                        &inner.folder_id,
+                    )?)
+                }
+                wire_tracked_account_change::Inner::FolderDeleted(inner) => {
+                    TrackedAccountChange::FolderDeleted(decode_uuid(
+                        &inner.folder_id,
+                    )?)
+                }
+            },
+        )
     }
 }
 
@@ -717,18 +776,20 @@ impl TryFrom<WireTrackedDeviceChange> for TrackedDeviceChange {
     type Error = Error;
 
     fn try_from(value: WireTrackedDeviceChange) -> Result<Self> {
-        Ok(match value.inner.unwrap() {
-            wire_tracked_device_change::Inner::Trusted(inner) => {
-                TrackedDeviceChange::Trusted(
-                    inner.device_public_key.as_slice().try_into()?,
-                )
-            }
-            wire_tracked_device_change::Inner::Revoked(inner) => {
-                TrackedDeviceChange::Revoked(
-                    inner.device_public_key.as_slice().try_into()?,
-                )
-            }
-        })
+        Ok(
+            match value.inner.ok_or_else(crate::bindings::missing_field)? {
+                wire_tracked_device_change::Inner::Trusted(inner) => {
+                    TrackedDeviceChange::Trusted(
+                        inner.device_public_key.as_slice().try_into()?,
+                    )
+                }
+                wire_tracked_device_change::Inner::Revoked(inner) => {
+                    TrackedDeviceChange::Revoked(
+                        inner.device_public_key.as_slice().try_into()?,
+                    )
+                }
+            },
+        )
     }
 }
 
@@ -781,27 +842,44 @@ mod files {
         type Error = Error;
 
         fn try_from(value: WireTrackedFileChange) -> Result<Self> {
-            Ok(match value.inner.unwrap() {
-                wire_tracked_file_change::Inner::Created(inner) => {
-                    TrackedFileChange::Created(
-                        inner.owner.unwrap().try_into()?,
-                        inner.file_name.as_slice().try_into()?,
-                    )
-                }
-                wire_tracked_file_change::Inner::Moved(inner) => {
-                    TrackedFileChange::Moved {
-                        name: inner.name.as_slice().try_into()?,
-                        from: inner.from.unwrap().try_into()?,
-                        dest: inner.dest.unwrap().try_into()?,
+            Ok(
+                match value
+                    .inner
+                    .ok_or_else(crate::bindings::missing_field)?
+                {
+                    wire_tracked_file_change::Inner::Created(inner) => {
+                        TrackedFileChange::Created(
+                            inner
+                                .owner
+                                .ok_or_else(crate::bindings::missing_field)?
+                                .try_into()?,
+                            inner.file_name.as_slice().try_into()?,
+                        )
                     }
-                }
-                wire_tracked_file_change::Inner::Deleted(inner) => {
-                    TrackedFileChange::Deleted(
-                        inner.owner.unwrap().try_into()?,
-                        inner.file_name.as_slice().try_into()?,
-                    )
-                }
-            })
+                    wire_tracked_file_change::Inner::Moved(inner) => {
+                        TrackedFileChange::Moved {
+                            name: inner.name.as_slice().try_into()?,
+                            from: inner
+                                .from
+                                .ok_or_else(crate::bindings::missing_field)?
+                                .try_into()?,
+                            dest: inner
+                                .dest
+                                .ok_or_else(crate::bindings::missing_field)?
+                                .try_into()?,
+                        }
+                    }
+                    wire_tracked_file_change::Inner::Deleted(inner) => {
+                        TrackedFileChange::Deleted(
+                            inner
+                                .owner
+                                .ok_or_else(crate::bindings::missing_field)?
+                                .try_into()?,
+                            inner.file_name.as_slice().try_into()?,
+                        )
+                    }
+                },
+            )
         }
     }
 
@@ -856,17 +934,25 @@ impl TryFrom<WireTrackedFolderChange> for TrackedFolderChange {
     type Error = Error;
 
     fn try_from(value: WireTrackedFolderChange) -> Result<Self> {
-        Ok(match value.inner.unwrap() {
-            wire_tracked_folder_change::Inner::Created(inner) => {
-                TrackedFolderChange::Created(decode_uuid(&inner.secret_id)?)
-            }
-            wire_tracked_folder_change::Inner::Updated(inner) => {
-                TrackedFolderChange::Updated(decode_uuid(&inner.secret_id)?)
-            }
-            wire_tracked_folder_change::Inner::Deleted(inner) => {
-                TrackedFolderChange::Deleted(decode_uuid(&inner.secret_id)?)
-            }
-        })
+        Ok(
+            match value.inner.ok_or_else(crate::bindings::missing_field)? {
+                wire_tracked_folder_change::Inner::Created(inner) => {
+                    TrackedFolderChange::Created(decode_uuid(
+                        &inner.secret_id,
+                    )?)
+                }
+                wire_tracked_folder_change::Inner::Updated(inner) => {
+                    TrackedFolderChange::Updated(decode_uuid(
+                        &inner.secret_id,
+                    )?)
+                }
+                wire_tracked_folder_change::Inner::Deleted(inner) => {
+                    TrackedFolderChange::Deleted(decode_uuid(
+                        &inner.secret_id,
+                    )?)
+                }
+            },
+        )
     }
 }
 
